@@ -40,7 +40,10 @@ P = {}
 STATS = Counter()
 LAST = {}
 
-HEADS = [("F()", []), ("F(x)", ["x"]), ("F(x,y)", ["x", "y"]), ("F(x,...)", ["x", "__VA_ARGS__"]), ("F(...)", ["__VA_ARGS__"])]
+HEADS = [("F()", []), ("F(x)", ["x"]), ("F(x,y)", ["x", "y"]), ("F(x,...)", ["x", "__VA_ARGS__"]), ("F(...)", ["__VA_ARGS__"]),
+         ("F(x,rest...)", ["x", "__VA_ARGS__"])]
+# GNU named variable arguments: CBI sees the name, the reference the alpha-equivalent __VA_ARGS__ form (thorough tier)
+NAMED = {"F(x,rest...)": "rest"}
 ITEMS = ["x", "1", "+", "G", "y", "#x", "x##y", "x##1", "__VA_ARGS__", "H",
          "1##x", "#__VA_ARGS__", "F", "(", ")", ",", "F(x)", "y##__VA_ARGS__", "x##y##1", "#y"]
 GDEFS = [("G", "F"), ("G", "1"), ("G(y)", "F(y)"), ("G", "H"), ("G", "F(H)"), ("G", "G"), ("G(y)", "y H"), ("G", "x"), ("G(y)", "y")]
@@ -106,6 +109,7 @@ def h_expand(i1: int, i2: int, i3: int, g: int, h: int) -> bool:
         sel = P.get("items") or list(range(len(ITEMS)))
         items = [ITEMS[sel[idx[0]]], ITEMS[sel[idx[1]]]] + ([ITEMS[sel[idx[2]]]] if P["three"] else [])
         body = " ".join(items)
+        cbi_body = body.replace("__VA_ARGS__", NAMED[head[0]]) if head[0] in NAMED else body
         gdef, hdef = GDEFS[idx[3]], HDEFS[idx[4]]
         inv = INVS[P["inv"]]
         try:
@@ -123,7 +127,7 @@ def h_expand(i1: int, i2: int, i3: int, g: int, h: int) -> bool:
         if P.get("_twin"):
             return False
         try:
-            plat = _cbi_platform([(head[0], body), gdef, hdef])
+            plat = _cbi_platform([(head[0], cbi_body), gdef, hdef])
             toks = pp.Lexer(inv).tokenize()
             got = _spell(pp.MacroExpander(plat).expand(toks))
             if got != exp:
@@ -131,7 +135,7 @@ def h_expand(i1: int, i2: int, i3: int, g: int, h: int) -> bool:
         except Exception as e:
             why = "exception " + repr(e)
     if P.get("_replay"):
-        LAST.update(defines=["%s %s" % (head[0], body), "%s %s" % gdef, "%s %s" % hdef], invocation=inv, expected=exp, why=why)
+        LAST.update(defines=["%s %s" % (head[0], cbi_body), "%s %s" % gdef, "%s %s" % hdef], invocation=inv, expected=exp, why=why)
     return why is None
 
 
@@ -319,7 +323,7 @@ def obligations(tier, known):
                 pass
         return False
 
-    for hd in range(len(HEADS)):
+    for hd in range(5 if tier == "quick" else len(HEADS)):
         for iv in invs:
             if not some_valid(hd, iv):
                 continue  # the invocation's argument count never fits this head: gcc diagnoses it
@@ -329,7 +333,7 @@ def obligations(tier, known):
                           params=dict(head=hd, inv=iv, nitems=nitems, ng=ng, nh=nh, three=False, regions=regions, items=sel), timeout=900,
                           group="expand"))
     if tier == "thorough":
-        for hd in range(len(HEADS)):
+        for hd in range(5):
             for iv in range(12):
                 if not some_valid(hd, iv):
                     continue
